@@ -181,11 +181,18 @@ static void digest(vnacal_t *vcp, int ci, const char *path, sbuf *b,
 	    return;
 	}
 	for (int i = 0; keys[i] != NULL; ++i) {
+	    /* the key as stored; the path needs it quoted */
+	    char *q = vnaproperty_quote_key(keys[i]);
 	    sb_add(b, "%s:", keys[i]);
+	    if (q == NULL) {
+		sb_add(b, "<quote_key=NULL>,");
+		continue;
+	    }
 	    if (strcmp(path, ".") == 0)
-		snprintf(child, sizeof(child), "%s", keys[i]);
+		snprintf(child, sizeof(child), "%s", q);
 	    else
-		snprintf(child, sizeof(child), "%s.%s", path, keys[i]);
+		snprintf(child, sizeof(child), "%s.%s", path, q);
+	    vf_free(q);
 	    digest(vcp, ci, child, b, depth + 1);
 	    sb_add(b, ",");
 	}
@@ -661,6 +668,19 @@ static void set_payload(vnacal_t *vcp, int ci, const char *who)
     (void)vnacal_property_set(vcp, ci, "empty=");
     (void)vnacal_property_set(vcp, ci, "punct=a: b # c, [d] {e} 'f' \"g\"");
     (void)vnacal_property_set(vcp, ci, "number_like=007");
+    /* keys that only exist because the caller escaped them */
+    static const char *const odd[] = { "rev.A", "port[2]", "a\\b", "k=v",
+	"has#hash", "9lives", " lead", "trail ", "it's \"q\"", "{brace}",
+	"~", "a: b", "-dash", "caf\xc3\xa9" };
+    for (size_t i = 0; i < sizeof(odd) / sizeof(odd[0]); ++i) {
+	char *q = vnaproperty_quote_key(odd[i]);
+	if (q != NULL) {
+	    (void)vnacal_property_set(vcp, ci, "odd.%s=value %zu", q, i);
+	    if (i % 3 == 0)
+		(void)vnacal_property_set(vcp, ci, "%s.nested[1]=%zu", q, i);
+	    vf_free(q);
+	}
+    }
 }
 
 static void run_history(vf_result *r, long h)
